@@ -43,6 +43,7 @@ def main(argv=None):
     ap.add_argument("--no-evidence", action="store_true")
     ap.add_argument("--no-shrink", action="store_true")
     ap.add_argument("--digests", help="write per-run digests to this file (determinism self-test)")
+    ap.add_argument("--seeds", default="", help="sensitivity: comma-separated VERIF_SEED values to try each seeded change with")
     args = ap.parse_args(argv)
     if args.what == "selftest-determinism":
         from simkit import selftest
